@@ -529,6 +529,8 @@ def rule_numeq(repo, rep, r5):
         pos_on_path = set()
         for tn, lab in deps_t:
             conj = tn.ast.values if isinstance(tn.ast, ast.BoolOp) and isinstance(tn.ast.op, ast.And) else [tn.ast]
+            # `not (tol > 0)` in a conjunction says that this tolerance is switched off on the path: it contributes nothing
+            conj = [cn for cn in conj if not (isinstance(cn, ast.UnaryOp) and isinstance(cn.op, ast.Not) and positive_test(cn.operand) is not None)]
             names = [positive_test(cn) for cn in conj]
             if lab != "T":
                 continue     # the test failed on this path
